@@ -115,6 +115,17 @@ func c19StreamsT(seed int64, thorough bool) []*Stream {
 		Ext: &ref.AFExt{LTW: true, LTWOffset: 0x2345, Seamless: true, Splice: 5, DTS: 0x1_8000_0001}}, 184)})
 	ps = append(ps, Packetize(PESUnit(0x300, 0xe0, pesPayload(6, 20, seed), 10, false), nil, &cc, false)...)
 	ss = append(ss, &Stream{Name: "af-variety", Pkts: ps, Bytes: EncodePkts(ps)})
+	{ // contents that look like structure: start codes at packet starts, padding-like bytes, sync bytes, a section inside a section
+		ccs := []uint8{7, 7, 7, 7, 7}
+		lists := [][]*ref.Pkt{
+			Packetize(PSIUnit(0, 0, [][]byte{SecPAT(modelPAT(1, 0x1000), ref.SecHdr{CNI: true})}, nil), nil, &ccs[0], true),
+			Packetize(lookalikePSI(0x1000, true, 6), nil, &ccs[1], true),
+			Packetize(lookalikePES(0x100, 58, seed), nil, &ccs[2], false),
+			append(Packetize(PESUnit(0x101, 0xc0, hostilePayload(9, 200), 3, true), nil, &ccs[3], false), Packetize(PESUnit(0x101, 0xc0, hostilePayload(12, 100), 4, true), nil, &ccs[3], false)...),
+			Packetize(lookalikePSI(0x11, false, 7), nil, &ccs[4], true),
+		}
+		ss = append(ss, BuildStream("hostile-contents", lists, roundRobin(lists), nil))
+	}
 	{ // a longer multiplex: PAT, PMT, two PES PIDs with several units, a 2-packet SDT (13 packets)
 		ccs := []uint8{0, 0, 4, 9, 15}
 		pat, pmt, sdt := modelPAT(1, 0x1000), modelPMT(1, 0x100, 2), modelSDT(7)
